@@ -25,9 +25,9 @@ Definition input := (kind * spec * list str * nat * N)%type.   (* + model class 
 Definition the_op (s : spec) (i : nat) : op := nth i s [].
 
 Definition model_obs (x : input) : obs :=
-  let '(k, s, ms, i, st) := x in to_obs (call_ns k s ms (the_op s i) st).
-Definition guards (x : input) : list bool :=
-  let '(k, s, ms, i, st) := x in [guard_F06e k s ms (the_op s i) st].
+  let '(k, s, ms, i, st) := x in to_obs (call_ns k s ms ms (the_op s i) st).   (* the harness's specs have one module: all = ms *)
+(* no guard conjunct is left: F06a-e are fixed *)
+Definition guards (x : input) : list bool := [].
 Definition run (cases : list (input * obs)) : list N := report obs_eqb model_obs guards cases.
 
 (* function-level relation: the three real _get_primary_response copies, as index of the chosen response *)
